@@ -362,6 +362,12 @@ func atomOf(cond ssa.Value, val bool) Atom {
 		case token.EQL, token.NEQ:
 			eq := x.Op == token.EQL
 			l, r := x.X, x.Y
+			if s, ok := atomSubst[l]; ok {
+				l = s
+			}
+			if s, ok := atomSubst[r]; ok {
+				r = s
+			}
 			if isNilConst(r) || isNilConst(l) {
 				o := l
 				if isNilConst(l) {
@@ -414,9 +420,123 @@ func atomsOfBlock(b *ssa.BasicBlock) []Atom {
 func atomsOfBlockLocal(b *ssa.BasicBlock) []Atom {
 	var out []Atom
 	for _, l := range guardsOf(b) {
+		if cj := predicateConjuncts(l.Cond, l.Val); cj != nil {
+			out = append(out, cj...)
+			continue
+		}
 		out = append(out, atomOf(l.Cond, l.Val))
 	}
 	return out
+}
+
+// atomSubst: while the body of a predicate function is unfolded, its parameters stand for the arguments of the call.
+var atomSubst = map[ssa.Value]ssa.Value{}
+
+// predicateConjuncts: cond (taken with polarity val) is a call of a small side-effect free boolean function of the
+// module that is true on exactly one path through its body, i.e. a conjunction `return a && b && ...`; the facts that
+// hold when it is true are returned as atoms of their own (with the parameters replaced by the arguments), so that a
+// guard moved into a predicate function reads like the guard written out. nil when cond is not of that shape.
+func predicateConjuncts(cond ssa.Value, val bool) []Atom {
+	for i := 0; i < 4; i++ {
+		if u, ok := cond.(*ssa.UnOp); ok && u.Op == token.NOT {
+			cond, val = u.X, !val
+			continue
+		}
+		break
+	}
+	call, ok := cond.(*ssa.Call)
+	if !ok || !val {
+		return nil
+	}
+	f := staticCallee(call)
+	if f == nil || !inModule(f) || len(f.Blocks) == 0 || len(f.Blocks) > 8 || f.Signature.Recv() != nil || len(f.Params) != len(call.Call.Args) {
+		return nil
+	}
+	if rs := f.Signature.Results(); rs.Len() != 1 {
+		return nil
+	} else if bt, isB := rs.At(0).Type().Underlying().(*types.Basic); !isB || bt.Kind() != types.Bool {
+		return nil
+	}
+	pure := true
+	allInstrs(f, func(in ssa.Instruction) {
+		switch x := in.(type) {
+		case *ssa.Store, *ssa.Send, *ssa.Go, *ssa.Defer, *ssa.MapUpdate, *ssa.Panic:
+			pure = false
+		case *ssa.Call:
+			// accessors of the descriptor flags are pure; anything else is not unfolded
+			g := staticCallee(x)
+			if g == nil || !(g.Pkg != nil && g.Pkg.Pkg.Path() == pkgStream && recvTypeName(g) == "DescriptorFlags") {
+				pure = false
+			}
+		}
+	})
+	if !pure {
+		return nil
+	}
+	for i, prm := range f.Params {
+		atomSubst[prm] = call.Call.Args[i]
+	}
+	defer func() {
+		for _, prm := range f.Params {
+			delete(atomSubst, prm)
+		}
+	}()
+	var truePaths [][]Atom
+	var path []*ssa.BasicBlock
+	on := map[*ssa.BasicBlock]bool{}
+	var walk func(b *ssa.BasicBlock, atoms []Atom)
+	walk = func(b *ssa.BasicBlock, atoms []Atom) {
+		if on[b] || len(truePaths) > 1 {
+			return
+		}
+		on[b] = true
+		path = append(path, b)
+		defer func() { on[b] = false; path = path[:len(path)-1] }()
+		if r, isR := b.Instrs[len(b.Instrs)-1].(*ssa.Return); isR {
+			v := r.Results[0]
+			for k := 0; k < 4; k++ {
+				ph, isPhi := v.(*ssa.Phi)
+				if !isPhi {
+					break
+				}
+				var sel ssa.Value
+				for j := 1; j < len(path); j++ {
+					if path[j] == ph.Block() {
+						for pi, pr := range ph.Block().Preds {
+							if pr == path[j-1] {
+								sel = ph.Edges[pi]
+							}
+						}
+					}
+				}
+				if sel == nil {
+					break
+				}
+				v = sel
+			}
+			if k, isK := v.(*ssa.Const); isK && k.Value != nil && k.Value.Kind() == constant.Bool {
+				if constant.BoolVal(k.Value) {
+					truePaths = append(truePaths, append([]Atom{}, atoms...))
+				}
+				return
+			}
+			truePaths = append(truePaths, append(append([]Atom{}, atoms...), atomOf(v, true)))
+			return
+		}
+		ifi, isIf := b.Instrs[len(b.Instrs)-1].(*ssa.If)
+		for k, su := range b.Succs {
+			next := atoms
+			if isIf && len(b.Succs) == 2 {
+				next = append(append([]Atom{}, atoms...), atomOf(ifi.Cond, k == 0))
+			}
+			walk(su, next)
+		}
+	}
+	walk(f.Blocks[0], nil)
+	if len(truePaths) != 1 {
+		return nil
+	}
+	return truePaths[0]
 }
 
 func hasAtom(as []Atom, kind, name string, val bool) bool {
